@@ -242,6 +242,9 @@ private theorem pyIsclose_false (relTol absTol a b : Rat) (h0 : a ≠ b)
   simp [pyIsclose, pyAbs_eq_abs, h0, h3]
   exact ⟨h1, h2⟩
 
+private theorem pyIsclose_self (relTol absTol x : Rat) : pyIsclose relTol absTol x x = true := by
+  simp [pyIsclose]
+
 /-- `math.isclose(t1, 1.0)` does not fire before the last of `n` equal steps when `n` is below 1/tol -/
 private theorem no_early_snap (relTol absTol : Rat) (n : Nat) (h0 : 0 ≤ relTol)
     (hr : relTol * n < 1) (ha : absTol * n < 1) (k : Nat) (hk : k + 1 < n) :
@@ -445,7 +448,110 @@ theorem ellipse_sound (C : Curve V) (budget : Nat) (relTol absTol param endParam
         exact inv_spec C param endParam n st r1 r2 (by simpa [Nat.add_comm] using r3)
       · simp at h
 
-/-- `np.isclose(next_t, t1)` does not fire before the last of the `segments` steps of any knot span -/
+/-! ### the parameter prelude of `ConstructionEllipse.flattening` -/
+
+/-- Python's `x % tau` for `tau > 0` lies in `[0, tau)` -/
+theorem pyMod_range (x tau : Rat) (htau : 0 < tau) : 0 ≤ pyMod x tau ∧ pyMod x tau < tau := by
+  unfold pyMod
+  have h1 : ((⌊x / tau⌋ : Int) : Rat) ≤ x / tau := Int.floor_le _
+  have h2 : x / tau < ((⌊x / tau⌋ : Int) : Rat) + 1 := Int.lt_floor_add_one _
+  have hx : x = tau * (x / tau) := by field_simp
+  change 0 ≤ x - tau * ((⌊x / tau⌋ : Int) : Rat) ∧ x - tau * ((⌊x / tau⌋ : Int) : Rat) < tau
+  constructor
+  · have := mul_le_mul_of_nonneg_left h1 htau.le
+    linarith
+  · have := mul_lt_mul_of_pos_left h2 htau
+    linarith
+
+/-- `(x + tau) % tau = x % tau` -/
+theorem pyMod_add_period (x tau : Rat) (htau : 0 < tau) : pyMod (x + tau) tau = pyMod x tau := by
+  unfold pyMod
+  have : (x + tau) / tau = x / tau + 1 := by field_simp
+  change x + tau - tau * ((⌊(x + tau) / tau⌋ : Int) : Rat) = x - tau * ((⌊x / tau⌋ : Int) : Rat)
+  rw [this, Int.floor_add_one]
+  push_cast; ring
+
+/-- **what the prelude hands to the loop**: the start parameter is normalised into `[0, tau)`, the end parameter lies
+    strictly behind it and at most one full turn away, `delta = param_span / segments ≠ 0` -/
+theorem ellipse_prelude_spec (relTol absTol tau start end_ span : Rat) (n : Nat) (htau : 0 < tau)
+    (p e dl : Rat) (h : ellipsePrelude relTol absTol tau start end_ span n = some (p, e, dl)) :
+    0 ≤ p ∧ p < tau ∧ p < e ∧ e ≤ p + tau ∧ dl = span / n ∧ dl ≠ 0 := by
+  obtain ⟨hp0, hp1⟩ := pyMod_range start tau htau
+  unfold ellipsePrelude at h
+  simp only at h
+  split at h
+  · simp at h
+  · rename_i hdl
+    -- e0
+    have he0 : ∀ e0 : Rat, e0 = (if pyIsclose relTol absTol end_ tau then tau else pyMod end_ tau) → 0 ≤ e0 ∧ e0 ≤ tau := by
+      intro e0 he
+      split at he
+      · rw [he]; exact ⟨htau.le, le_refl _⟩
+      · rw [he]; exact ⟨(pyMod_range end_ tau htau).1, (pyMod_range end_ tau htau).2.le⟩
+    generalize hg : (if pyIsclose relTol absTol end_ tau then tau else pyMod end_ tau) = e0 at h
+    obtain ⟨h0, h1⟩ := he0 e0 hg.symm
+    split at h
+    · split at h
+      · simp only [Option.some.injEq, Prod.mk.injEq] at h
+        obtain ⟨rfl, rfl, rfl⟩ := h
+        exact ⟨hp0, hp1, by linarith, le_refl _, rfl, hdl⟩
+      · simp at h
+    · rename_i hnc
+      have hne : pyMod start tau ≠ e0 := by
+        intro hc; rw [hc] at hnc; simp [pyIsclose] at hnc
+      split at h
+      · rename_i hgt
+        simp only [Option.some.injEq, Prod.mk.injEq] at h
+        obtain ⟨rfl, rfl, rfl⟩ := h
+        exact ⟨hp0, hp1, by linarith, by linarith, rfl, hdl⟩
+      · rename_i hgt
+        simp only [Option.some.injEq, Prod.mk.injEq] at h
+        obtain ⟨rfl, rfl, rfl⟩ := h
+        have hle : pyMod start tau ≤ e0 := not_lt.mp hgt
+        exact ⟨hp0, hp1, lt_of_le_of_ne hle hne, by linarith, rfl, hdl⟩
+
+/-- **a full ellipse is never empty** (fix of known finding C14-3): given as `(a, a + tau)` with ANY start parameter
+    `a`, the prelude hands over exactly one full turn starting at `a % tau`.  (Before the fix the branch
+    `isclose(param, end_param)` returned without a vertex: `ConstructionEllipse(start_param=1.0,
+    end_param=1.0 + math.tau).flattening(0.1)` was empty although `param_span == tau`.) -/
+theorem ellipse_prelude_full (relTol absTol tau a : Rat) (n : Nat) (htau : 0 < tau) (hn : 0 < n)
+    (hne : pyIsclose relTol absTol (a + tau) tau = false) :
+    ellipsePrelude relTol absTol tau a (a + tau) tau n = some (pyMod a tau, pyMod a tau + tau, tau / n) := by
+  have hnq : (0 : Rat) < n := by exact_mod_cast hn
+  have hdl : tau / (n : Rat) ≠ 0 := ne_of_gt (div_pos htau hnq)
+  unfold ellipsePrelude
+  simp only [hdl, if_false, hne, Bool.false_eq_true, pyMod_add_period a tau htau, pyIsclose_self, if_true]
+
+/-- `ConstructionEllipse.flattening` WITH its prelude: nothing is yielded when the prelude returns, otherwise a
+    finished run meets `FlatSpec` over the parameter range the prelude computed (with `param_span` consistent with
+    that range and no early snap, both decidable) -/
+theorem ellipse_full_sound (C : Curve V) (budget : Nat) (relTol absTol tau start end_ span : Rat) (n fuel : Nat)
+    (out : List (TV V)) (h : ellipseFlatFull C budget relTol absTol tau start end_ span n fuel = .ok out) :
+    (ellipsePrelude relTol absTol tau start end_ span n = none ∧ out = []) ∨
+    ∃ p e dl, ellipsePrelude relTol absTol tau start end_ span n = some (p, e, dl) ∧
+      (0 < dl → p + n * dl = e →
+        (∀ k : Nat, k < n - 1 → pyIsclose relTol absTol (p + ((k : Rat) + 1) * dl) e = false) →
+        FlatSpec C p e n out) := by
+  unfold ellipseFlatFull at h
+  split at h
+  · rename_i hnone
+    left; exact ⟨hnone, by simpa using h.symm⟩
+  · rename_i p e dl hsome
+    right
+    refine ⟨p, e, dl, hsome, fun hδ hn hsnap => ?_⟩
+    split at h
+    · rename_i st hst
+      simp only [Except.ok.injEq] at h
+      subst h
+      have hinv0 : Inv C p ⟨p, C.P p, [(p, C.P p)]⟩ := ⟨[], rfl, trivial, by simp [lastOf]⟩
+      obtain ⟨r1, r2, r3⟩ := spanLoop_sound C _ (recSub_sound C budget) (pyIsclose relTol absTol) dl
+        e (C.P e) hδ rfl p p n hn (fun k hk => hsnap k (by omega))
+        fuel 0 _ st (Nat.zero_le _) (by simp) hinv0 hst
+      exact inv_spec C p e n st r1 r2 (by simpa [Nat.add_comm] using r3)
+    · simp at h
+
+/-- the snap test (`math.isclose(next_t, t1)`; `np.isclose` before the fix of C14-6) does not fire before the last of
+    the `segments` steps of any knot span -/
 def NoEarlySnap (close : Rat → Rat → Bool) (segs : Nat) : Rat → List Rat → Prop
   | _, [] => True
   | t, t1 :: ks =>
@@ -549,7 +655,7 @@ private theorem strictInc_of_pairwise (t : Rat) (ks : List Rat) (h : (t :: ks).P
     knot range with at least `segments` chords per knot span -/
 theorem bspline_sound (C : Curve V) (budget : Nat) (rtol atol : Rat) (knots : List Rat) (segs fuel : Nat)
     (out : List (TV V)) (t : Rat) (ks : List Rat) (hu : uniq knots = t :: ks) (hsegs : 0 < segs)
-    (hsnap : NoEarlySnap (npIsclose rtol atol) segs t ks)
+    (hsnap : NoEarlySnap (pyIsclose rtol atol) segs t ks)
     (h : bsplineFlat C budget rtol atol knots segs fuel = .ok out) :
     FlatSpec C t ((ks.getLast?).getD t) (segs * ks.length) out := by
   unfold bsplineFlat at h
@@ -561,10 +667,91 @@ theorem bspline_sound (C : Curve V) (budget : Nat) (rtol atol : Rat) (knots : Li
     subst h
     have hinv0 : Inv C t ⟨t, C.P t, [(t, C.P t)]⟩ := ⟨[], rfl, trivial, by simp [lastOf]⟩
     have hinc : StrictInc t ks := strictInc_of_pairwise t ks (by rw [← hu]; exact uniq_sorted knots)
-    obtain ⟨r1, r2, r3⟩ := knotLoop_sound C _ (recSub_sound C budget) (npIsclose rtol atol) segs fuel hsegs t
+    obtain ⟨r1, r2, r3⟩ := knotLoop_sound C _ (recSub_sound C budget) (pyIsclose rtol atol) segs fuel hsegs t
       ks _ st hinc hsnap hinv0 hst
     exact inv_spec C t _ _ st r1 r2 (by simpa [Nat.add_comm] using r3)
   · simp at h
+
+/-- `math.isclose(next_t, t1)` does not fire before the last of `n` equal steps from `t` to `t1` when the span is
+    wider than `n` times the tolerance at the larger knot magnitude -/
+private theorem no_early_snap_span (relTol absTol t t1 : Rat) (n : Nat) (h0 : 0 ≤ relTol) (hlt : t < t1)
+    (hr : relTol * n * max |t| |t1| < t1 - t) (ha : absTol * n < t1 - t) (k : Nat) (hk : k + 1 < n) :
+    pyIsclose relTol absTol (t + ((k : Rat) + 1) * ((t1 - t) / n)) t1 = false := by
+  have hn : (0 : Rat) < n := by exact_mod_cast (by omega : 0 < n)
+  have hk1 : ((k : Rat) + 1) + 1 ≤ n := by exact_mod_cast hk
+  have hk0 : (0 : Rat) ≤ k := by exact_mod_cast Nat.zero_le k
+  set dl : Rat := (t1 - t) / n with hdl
+  have hdn : dl * n = t1 - t := by rw [hdl]; field_simp
+  have hdpos : 0 < dl := div_pos (by linarith) hn
+  set x : Rat := t + ((k : Rat) + 1) * dl with hx
+  have hgap : dl ≤ t1 - x := by
+    have : t1 - x = (n - ((k : Rat) + 1)) * dl := by rw [hx]; linarith [hdn]
+    rw [this]; nlinarith
+  have hxt : t ≤ x := by rw [hx]; nlinarith
+  have hxt1 : x < t1 := by linarith
+  have hM : |x| ≤ max |t| |t1| := by
+    rcases le_total 0 x with hx0 | hx0
+    · rw [abs_of_nonneg hx0]
+      exact le_trans (le_trans hxt1.le (le_abs_self t1)) (le_max_right _ _)
+    · rw [abs_of_nonpos hx0]
+      exact le_trans (le_trans (neg_le_neg hxt) (neg_le_abs t)) (le_max_left _ _)
+  have hM1 : |t1| ≤ max |t| |t1| := le_max_right _ _
+  have hMnn : 0 ≤ max |t| |t1| := le_trans (abs_nonneg t) (le_max_left _ _)
+  have hrel : relTol * max |t| |t1| < dl := by
+    by_contra hc
+    have : dl * n ≤ relTol * max |t| |t1| * n := mul_le_mul_of_nonneg_right (not_lt.mp hc) hn.le
+    nlinarith
+  have habs : absTol < dl := by
+    by_contra hc
+    have : dl * n ≤ absTol * n := mul_le_mul_of_nonneg_right (not_lt.mp hc) hn.le
+    linarith
+  have hd : |t1 - x| = t1 - x := abs_of_pos (by linarith)
+  apply pyIsclose_false
+  · exact ne_of_lt hxt1
+  · rw [hd, abs_mul, abs_of_nonneg h0]
+    calc relTol * |t1| ≤ relTol * max |t| |t1| := mul_le_mul_of_nonneg_left hM1 h0
+      _ < dl := hrel
+      _ ≤ t1 - x := hgap
+  · rw [hd, abs_mul, abs_of_nonneg h0]
+    calc relTol * |x| ≤ relTol * max |t| |t1| := mul_le_mul_of_nonneg_left hM h0
+      _ < dl := hrel
+      _ ≤ t1 - x := hgap
+  · rw [hd]; linarith
+
+/-- every knot span is wider than `segments` times the `isclose` tolerance at its larger knot magnitude (decidable,
+    true for all sane knot vectors: with `rel_tol = 1e-9` a span of width 1 at knot value 1e5 allows 10^4 segments) -/
+def GapsOK (relTol absTol : Rat) (segs : Nat) : Rat → List Rat → Prop
+  | _, [] => True
+  | t, t1 :: ks => relTol * segs * max |t| |t1| < t1 - t ∧ absTol * segs < t1 - t ∧ GapsOK relTol absTol segs t1 ks
+
+private theorem noEarlySnap_of_gaps (relTol absTol : Rat) (segs : Nat) (h0 : 0 ≤ relTol) :
+    ∀ (ks : List Rat) (t : Rat), StrictInc t ks → GapsOK relTol absTol segs t ks →
+      NoEarlySnap (pyIsclose relTol absTol) segs t ks := by
+  intro ks
+  induction ks with
+  | nil => intro t _ _; trivial
+  | cons t1 ks ih =>
+    intro t hinc hg
+    exact ⟨fun k hk => no_early_snap_span relTol absTol t t1 segs h0 hinc.1 hg.1 hg.2.1 k (by omega),
+      ih t1 hinc.2 hg.2.2⟩
+
+/-- **BSpline.flattening, arithmetic form** (current code: `math.isclose` snap, chord-distance test): for a knot
+    vector whose spans are wider than `segments` times the tolerance (`GapsOK`), a finished run meets `FlatSpec` over
+    the whole knot range with at least `segments` chords per knot span - the no-early-snap condition of
+    `bspline_sound` is DERIVED.  (With `np.isclose` before fix of C14-6 this failed for knot values ≥ 1e4.) -/
+theorem bspline_sound_gaps (C : Curve V) (budget : Nat) (relTol absTol : Rat) (knots : List Rat) (segs fuel : Nat)
+    (out : List (TV V)) (t : Rat) (ks : List Rat) (hu : uniq knots = t :: ks) (hsegs : 0 < segs)
+    (h0 : 0 ≤ relTol) (hg : GapsOK relTol absTol segs t ks)
+    (h : bsplineFlat C budget relTol absTol knots segs fuel = .ok out) :
+    FlatSpec C t ((ks.getLast?).getD t) (segs * ks.length) out :=
+  bspline_sound C budget relTol absTol knots segs fuel out t ks hu hsegs
+    (noEarlySnap_of_gaps relTol absTol segs h0 ks t
+      (strictInc_of_pairwise t ks (by rw [← hu]; exact uniq_sorted knots)) hg) h
+
+-- the knot vector of known finding C14-6 (values ~ 4.9e4, spans ~ 1, segments = 4) meets `GapsOK` with the
+-- `math.isclose` defaults; with `np.isclose` (rtol 1e-5) it snapped at the first step
+example : GapsOK (1e-9) 0 4 48660 [486611/10, 486623/10, 486631/10, 486643/10, 48665] := by
+  simp only [GapsOK]; norm_num [abs_of_pos]
 
 /-! ## the Cython twin is total up to RecursionError -/
 
@@ -779,6 +966,121 @@ theorem lineTest_not_documented :
   nlinarith
 
 
+/-! ## the current B-spline / ellipse test: distance to the chord SEGMENT (fixes 5dd05e20e / c03295f49) -/
+
+/-- B-spline / ellipse (current code): the test accepts exactly when `distance_point_segment_3d` is below
+    `distance` (squared form) -/
+theorem chordTest_accept_iff (d : Rat) (s e m : V3) :
+    chordTest d s e m = .accept ↔ 0 < d ∧ segDist2 s e m < d * d := by
+  unfold chordTest
+  split
+  · rename_i h; exact ⟨fun _ => (sqrtLt_iff _ _).mp h, fun _ => rfl⟩
+  · rename_i h; exact ⟨fun hc => Verdict.noConfusion hc, fun hc => absurd ((sqrtLt_iff _ _).mpr hc) h⟩
+
+private theorem dot_self_eq_zero (u : V3) (h : V3.dot u u = 0) : u.x = 0 ∧ u.y = 0 ∧ u.z = 0 := by
+  simp only [V3.dot] at h
+  have hx := mul_self_nonneg u.x
+  have hy := mul_self_nonneg u.y
+  have hz := mul_self_nonneg u.z
+  refine ⟨?_, ?_, ?_⟩ <;> exact mul_self_eq_zero.mp (by linarith)
+
+private theorem dist2_comm (a b : V3) : V3.dist2 a b = V3.dist2 b a := by
+  simp only [V3.dist2, V3.sub, V3.dot]; ring
+
+/-- `distance_point_segment_3d` really is the distance to the chord: its value is attained at a point
+    `s + λ (e - s)` with `0 ≤ λ ≤ 1` of the segment, and no point of the segment is closer
+    (all four branches: degenerate chord, projection before the start, behind the end, inside) -/
+theorem segDist2_is_chord_distance (s e m : V3) :
+    (∃ lam : Rat, 0 ≤ lam ∧ lam ≤ 1 ∧ segDist2 s e m = V3.dist2 (V3.lerp s e lam) m) ∧
+    ∀ mu : Rat, 0 ≤ mu → mu ≤ 1 → segDist2 s e m ≤ V3.dist2 (V3.lerp s e mu) m := by
+  have hL := dot_self_nonneg (e.sub s)
+  unfold segDist2
+  simp only
+  by_cases h0 : V3.dot (e.sub s) (e.sub s) = 0
+  · -- degenerate chord: every `lerp s e μ` is `s`
+    simp only [h0, if_true]
+    obtain ⟨hx, hy, hz⟩ := dot_self_eq_zero _ h0
+    have huv : V3.dot (e.sub s) (m.sub s) = 0 := by simp only [V3.dot, hx, hy, hz]; ring
+    refine ⟨⟨0, le_refl _, by norm_num, ?_⟩, fun mu _ _ => ?_⟩
+    · rw [v3_ext_dist]; ring
+    · rw [v3_ext_dist, h0, huv]; linarith
+  · simp only [h0, if_false]
+    have hLpos : 0 < V3.dot (e.sub s) (e.sub s) := lt_of_le_of_ne hL (Ne.symm h0)
+    by_cases ht0 : V3.dot (e.sub s) (m.sub s) / V3.dot (e.sub s) (e.sub s) ≤ 0
+    · -- projection before the start point
+      simp only [ht0, if_true]
+      have huv : V3.dot (e.sub s) (m.sub s) ≤ 0 := by
+        have := (div_le_iff₀ hLpos).mp ht0; linarith
+      refine ⟨⟨0, le_refl _, by norm_num, ?_⟩, fun mu h0' _ => ?_⟩
+      · rw [v3_ext_dist]; ring
+      · rw [v3_ext_dist]
+        nlinarith [mul_nonneg h0' (neg_nonneg.mpr huv), mul_nonneg (mul_nonneg h0' h0') hL]
+    · simp only [ht0, if_false]
+      by_cases ht1 : 1 ≤ V3.dot (e.sub s) (m.sub s) / V3.dot (e.sub s) (e.sub s)
+      · -- projection behind the end point
+        simp only [ht1, if_true]
+        have huv : V3.dot (e.sub s) (e.sub s) ≤ V3.dot (e.sub s) (m.sub s) := by
+          have := (le_div_iff₀ hLpos).mp ht1; linarith
+        have hme : V3.dist2 m e = V3.dist2 (V3.lerp s e 1) m := by
+          simp only [V3.dist2, V3.lerp, V3.add, V3.sub, V3.smul, V3.dot]; ring
+        refine ⟨⟨1, by norm_num, le_refl _, hme⟩, fun mu h0' h1' => ?_⟩
+        rw [hme, v3_ext_dist, v3_ext_dist]
+        have h1 : 0 ≤ (1 - mu) * (V3.dot (e.sub s) (m.sub s) - V3.dot (e.sub s) (e.sub s)) :=
+          mul_nonneg (by linarith) (by linarith)
+        have h2 : 0 ≤ (1 - mu) * (1 - mu) * V3.dot (e.sub s) (e.sub s) :=
+          mul_nonneg (mul_nonneg (by linarith) (by linarith)) hL
+        nlinarith
+      · -- foot point inside the chord
+        simp only [ht1, if_false]
+        set t := V3.dot (e.sub s) (m.sub s) / V3.dot (e.sub s) (e.sub s) with htdef
+        have hfoot : V3.dist2 m (s.add (V3.smul t (e.sub s))) = V3.dist2 (V3.lerp s e t) m := by
+          rw [dist2_comm]; rfl
+        have htL : t * V3.dot (e.sub s) (e.sub s) = V3.dot (e.sub s) (m.sub s) := by
+          rw [htdef]; field_simp
+        refine ⟨⟨t, le_of_lt (not_le.mp ht0), le_of_lt (not_le.mp ht1), hfoot⟩, fun mu _ _ => ?_⟩
+        rw [hfoot, v3_ext_dist, v3_ext_dist, ← htL]
+        nlinarith [mul_nonneg (mul_self_nonneg (mu - t)) hL]
+
+/-- **the coded B-spline / ellipse test IS the documented criterion** (full strength, both directions):
+    the chord is accepted exactly when the curve point at the middle parameter lies within `distance` of
+    the chord.  (Before the fixes only the weaker `lineTest_implies_line` held and
+    `lineTest_not_documented` / `bspline_line_test_counterexample` refuted this statement.) -/
+theorem chordTest_iff_documented (d : Rat) (s e m : V3) :
+    chordTest d s e m = .accept ↔ 0 < d ∧ WithinChord d s e m := by
+  rw [chordTest_accept_iff]
+  obtain ⟨⟨lam, h0, h1, heq⟩, hmin⟩ := segDist2_is_chord_distance s e m
+  constructor
+  · rintro ⟨hd, hlt⟩
+    exact ⟨hd, lam, h0, h1, by rw [← heq]; exact hlt⟩
+  · rintro ⟨hd, mu, h0', h1', hlt⟩
+    exact ⟨hd, lt_of_le_of_lt (hmin mu h0' h1') hlt⟩
+
+/-- a degenerate chord (`s = e`) is no longer accepted blindly (`_dist = 0`, known finding C14-5) and no
+    longer raises (C14-2): it is accepted exactly when the curve point itself is within `distance` of `s` -/
+theorem chordTest_degenerate (d : Rat) (s m : V3) :
+    chordTest d s s m = .accept ↔ 0 < d ∧ V3.dist2 s m < d * d := by
+  rw [chordTest_accept_iff]
+  have : segDist2 s s m = V3.dist2 s m := by
+    have h0 : V3.dot (s.sub s) (s.sub s) = 0 := by simp only [V3.dot, V3.sub]; ring
+    unfold segDist2
+    simp only [h0, if_true]
+    rfl
+  rw [this]
+
+/-- every chord of a finished B-spline / ellipse run meets the documented criterion: `FlatSpec` (from
+    `bspline_sound` / `ellipse_sound`) with the current test gives `WithinChord` for every consecutive pair -/
+theorem flatSpec_chord_documented (P : Rat → V3) (d a b : Rat) (n : Nat) (out : List (TV V3))
+    (h : FlatSpec ⟨P, chordTest d⟩ a b n out) :
+    ∀ pq ∈ out.zip out.tail, WithinChord d pq.1.2 pq.2.2 (P ((pq.1.1 + pq.2.1) * (1/2))) :=
+  fun pq hpq => ((chordTest_iff_documented d _ _ _).mp (h.criterion pq hpq)).2
+
+/-- the same for the Bezier test: every chord of a finished Bezier run (`flat_sound_py/pyx`) meets the
+    documented criterion -/
+theorem flatSpec_mid_documented (P : Rat → V3) (d a b : Rat) (n : Nat) (out : List (TV V3))
+    (h : FlatSpec ⟨P, midTest d⟩ a b n out) :
+    ∀ pq ∈ out.zip out.tail, WithinChord d pq.1.2 pq.2.2 (P ((pq.1.1 + pq.2.1) * (1/2))) :=
+  fun pq hpq => midTest_implies_documented d _ _ _ (h.criterion pq hpq)
+
 /-! ## path/tools.py: when a Bezier segment may be stored as a straight LINE_TO -/
 
 /-- `add_bezier4p` (rule: start == ctrl1 AND end == ctrl2): a cubic with BOTH handles retracted is its chord,
@@ -880,6 +1182,690 @@ theorem stack_eq_rec (C : Curve V) (b : Nat) (t0 : Rat) (s : V) (t1 : Rat) (e : 
   unfold stackSub
   rw [hc k [] []]
   simp
+
+/-! ## converse: the recursion reproduces the stack machine up to `RecursionError` -/
+
+private theorem recSub_mono (C : Curve V) :
+    ∀ (b : Nat) (t0 : Rat) (s : V) (t1 : Rat) (e : V) (l : List (TV V)),
+      recSub C b t0 s t1 e = .ok l → ∀ k, recSub C (b + k) t0 s t1 e = .ok l := by
+  intro b
+  induction b with
+  | zero => intro t0 s t1 e l h; simp [recSub] at h
+  | succ b ih =>
+    intro t0 s t1 e l h k
+    have hk : b + 1 + k = (b + k) + 1 := by omega
+    rw [hk]
+    unfold recSub at h
+    simp only at h
+    split at h
+    · rename_i hacc; simp only [recSub, hacc]; exact h
+    · rename_i hsplit
+      split at h
+      · simp at h
+      · rename_i l1 h1
+        split at h
+        · simp at h
+        · rename_i l2 h2
+          simp only [recSub, hsplit, ih _ _ _ _ _ h1 k, ih _ _ _ _ _ h2 k]
+          exact h
+    · simp at h
+
+private theorem recSub_error_stable (C : Curve V) :
+    ∀ (b : Nat) (t0 : Rat) (s : V) (t1 : Rat) (e : V) (x : Err),
+      recSub C b t0 s t1 e = .error x → x ≠ .recursion → ∀ k, recSub C (b + k) t0 s t1 e = .error x := by
+  intro b
+  induction b with
+  | zero =>
+    intro t0 s t1 e x h hx
+    simp only [recSub, Except.error.injEq] at h
+    exact absurd h.symm hx
+  | succ b ih =>
+    intro t0 s t1 e x h hx k
+    have hk : b + 1 + k = (b + k) + 1 := by omega
+    rw [hk]
+    unfold recSub at h
+    simp only at h
+    split at h
+    · simp at h
+    · rename_i hsplit
+      split at h
+      · rename_i x1 h1
+        simp only [Except.error.injEq] at h
+        subst h
+        simp only [recSub, hsplit, ih _ _ _ _ _ h1 hx k]
+      · rename_i l1 h1
+        split at h
+        · rename_i x2 h2
+          simp only [Except.error.injEq] at h
+          subst h
+          simp only [recSub, hsplit, recSub_mono C _ _ _ _ _ _ h1 k, ih _ _ _ _ _ h2 hx k]
+        · simp at h
+    · rename_i hraise; simp only [recSub, hraise]; exact h
+
+private theorem rec_simulates_stack (C : Curve V) :
+    ∀ (fuel : Nat) (t0 : Rat) (s : V) (t1 : Rat) (e : V) (stack out res : List (TV V)),
+      stackLoop C fuel t0 s t1 e stack out = .ok res →
+      ∃ l, recSub C fuel t0 s t1 e = .ok l ∧
+        match stack with
+        | [] => res = l.reverse ++ out
+        | (t', e') :: rest =>
+          ∃ fuel', fuel' < fuel ∧ stackLoop C fuel' t1 e t' e' rest (l.reverse ++ out) = .ok res := by
+  intro fuel
+  induction fuel using Nat.strong_induction_on with
+  | _ fuel ih =>
+    intro t0 s t1 e stack out res h
+    cases fuel with
+    | zero => simp [stackLoop] at h
+    | succ fuel =>
+      unfold stackLoop at h
+      simp only at h
+      split at h
+      · -- accept
+        rename_i hacc
+        refine ⟨[(t1, e)], by unfold recSub; simp only [hacc], ?_⟩
+        cases stack with
+        | nil => simp only [Except.ok.injEq] at h; simp [← h]
+        | cons top rest =>
+          obtain ⟨t', e'⟩ := top
+          exact ⟨fuel, Nat.lt_succ_self _, by simpa using h⟩
+      · -- split
+        rename_i hsplit
+        obtain ⟨l1, hr1, hcont⟩ := ih fuel (Nat.lt_succ_self _) _ _ _ _ _ _ _ h
+        obtain ⟨fuel', hlt, hrest⟩ := hcont
+        obtain ⟨l2, hr2, hfin⟩ := ih fuel' (Nat.lt_succ_of_lt hlt) _ _ _ _ _ _ _ hrest
+        have hr2' : recSub C fuel ((t0 + t1) * (1/2)) (C.P ((t0 + t1) * (1/2))) t1 e = .ok l2 := by
+          have := recSub_mono C fuel' _ _ _ _ _ hr2 (fuel - fuel')
+          rwa [Nat.add_sub_cancel' (Nat.le_of_lt hlt)] at this
+        refine ⟨l1 ++ l2, by unfold recSub; simp only [hsplit, hr1, hr2'], ?_⟩
+        cases stack with
+        | nil => simp only at hfin ⊢; rw [hfin]; simp
+        | cons top rest =>
+          obtain ⟨t', e'⟩ := top
+          simp only at hfin ⊢
+          obtain ⟨fuel'', hlt2, hfin2⟩ := hfin
+          exact ⟨fuel'', by omega, by simpa using hfin2⟩
+      · simp at h
+
+/-- **twin agreement, converse of `stack_eq_rec`**: whenever the pure Python stack machine finishes (with any fuel)
+    and returns the list `l`, the recursion of the Cython twin returns exactly `l` for every recursion budget from
+    `fuel` on, and for EVERY budget `b` its outcome is either that same list or `RecursionError` - nothing else
+    (no other list, no other exception).  For the real twins `b = RECURSION_LIMIT + 1 = 1001`: the Cython
+    `flattening` yields the vertices of the Python twin unless it raises `RecursionError`. -/
+theorem rec_eq_stack (C : Curve V) (fuel : Nat) (t0 : Rat) (s : V) (t1 : Rat) (e : V) (l : List (TV V))
+    (h : stackSub C fuel t0 s t1 e = .ok l) :
+    (∀ k, recSub C (fuel + k) t0 s t1 e = .ok l) ∧
+    ∀ b, recSub C b t0 s t1 e = .ok l ∨ recSub C b t0 s t1 e = .error .recursion := by
+  unfold stackSub at h
+  split at h
+  · rename_i r hr
+    simp only [Except.ok.injEq] at h
+    obtain ⟨l', hrec, hres⟩ := rec_simulates_stack C fuel t0 s t1 e [] [] r hr
+    simp only [List.append_nil] at hres
+    have hl : l' = l := by rw [← h, hres]; simp
+    subst hl
+    have hmono := recSub_mono C fuel t0 s t1 e l' hrec
+    refine ⟨hmono, fun b => ?_⟩
+    cases hb : recSub C b t0 s t1 e with
+    | ok l2 =>
+      left
+      have h1 := recSub_mono C b t0 s t1 e l2 hb fuel
+      have h2 := hmono b
+      rw [Nat.add_comm] at h1
+      rw [h1] at h2
+      exact h2
+    | error x =>
+      right
+      by_cases hx : x = .recursion
+      · rw [hx]
+      · have h1 := recSub_error_stable C b t0 s t1 e x hb hx fuel
+        have h2 := hmono b
+        rw [Nat.add_comm] at h1
+        rw [h1] at h2
+        exact absurd h2 (by simp)
+  · simp at h
+
+/-- the two directions together: for a budget that suffices, both twins' inner subdivisions agree as functions -/
+theorem stack_iff_rec (C : Curve V) (t0 : Rat) (s : V) (t1 : Rat) (e : V) (l : List (TV V)) :
+    (∃ fuel, stackSub C fuel t0 s t1 e = .ok l) ↔ (∃ b, recSub C b t0 s t1 e = .ok l) := by
+  constructor
+  · rintro ⟨fuel, h⟩
+    exact ⟨fuel, by simpa using (rec_eq_stack C fuel t0 s t1 e l h).1 0⟩
+  · rintro ⟨b, h⟩
+    obtain ⟨c, hc⟩ := stack_eq_rec C b t0 s t1 e l h
+    exact ⟨c, by simpa using hc 0⟩
+
+private theorem spanLoop_twin (C : Curve V) (sub1 sub2 : Rat → V → Rat → V → Except Err (List (TV V)))
+    (hrel : ∀ t0 s t1 e l, sub1 t0 s t1 e = .ok l →
+      sub2 t0 s t1 e = .ok l ∨ sub2 t0 s t1 e = .error .recursion)
+    (close1 close2 : Rat → Rat → Bool) (delta tEnd : Rat) (endPt : V) (a : Rat) (n : Nat)
+    (hn : a + n * delta = tEnd)
+    (hs1 : ∀ k : Nat, k + 1 < n → close1 (a + ((k : Rat) + 1) * delta) tEnd = false)
+    (hs2 : ∀ k : Nat, k + 1 < n → close2 (a + ((k : Rat) + 1) * delta) tEnd = false)
+    (hl1 : close1 tEnd tEnd = true) (hl2 : close2 tEnd tEnd = true) :
+    ∀ (fuel k : Nat) (st st' : St V), k ≤ n → st.t = a + k * delta →
+      spanLoop C sub1 close1 delta tEnd endPt fuel st = .ok st' →
+      spanLoop C sub2 close2 delta tEnd endPt fuel st = .ok st' ∨
+      spanLoop C sub2 close2 delta tEnd endPt fuel st = .error .recursion := by
+  intro fuel
+  induction fuel with
+  | zero => intro k st st' _ _ h; simp [spanLoop] at h
+  | succ fuel ih =>
+    intro k st st' hk ht h
+    unfold spanLoop at h ⊢
+    by_cases hlt : st.t < tEnd
+    · simp only [hlt, if_true] at h ⊢
+      have hk' : k < n := by
+        rcases Nat.lt_or_ge k n with h' | h'
+        · exact h'
+        · have : k = n := le_antisymm hk h'
+          subst this; rw [ht, hn] at hlt; exact absurd hlt (lt_irrefl _)
+      have ht1 : st.t + delta = a + ((k : Rat) + 1) * delta := by rw [ht]; ring
+      -- both snap tests take the same decision
+      have hsame : close1 (st.t + delta) tEnd = close2 (st.t + delta) tEnd := by
+        by_cases hk1 : k + 1 < n
+        · rw [ht1, hs1 k hk1, hs2 k hk1]
+        · have hkn : k + 1 = n := by omega
+          have : st.t + delta = tEnd := by
+            rw [ht1, ← hn, ← hkn]; push_cast; ring
+          rw [this, hl1, hl2]
+      rw [← hsame]
+      -- the new parameter is `a + (k+1) delta` whichever way the snap went
+      have hval : (if close1 (st.t + delta) tEnd then tEnd else st.t + delta) = a + ((k + 1 : Nat) : Rat) * delta := by
+        by_cases hs : close1 (st.t + delta) tEnd = true
+        · simp only [hs, if_true]
+          have : ¬ (k + 1 < n) := by
+            intro hc
+            have := hs1 k hc
+            rw [← ht1, hs] at this; exact Bool.noConfusion this
+          have hkn : k + 1 = n := by omega
+          rw [← hn, ← hkn]
+        · have hs' : close1 (st.t + delta) tEnd = false := by simpa using hs
+          simp only [hs', Bool.false_eq_true, if_false]
+          rw [ht1]; push_cast; ring
+      generalize ht1' : (if close1 (st.t + delta) tEnd then tEnd else st.t + delta) = t1' at h ⊢
+      generalize (if close1 (st.t + delta) tEnd then endPt else C.P (st.t + delta)) = e' at h ⊢
+      rw [ht1'] at hval
+      split at h
+      · simp at h
+      · rename_i l hl
+        rcases hrel _ _ _ _ _ hl with h2 | h2
+        · rw [h2]
+          exact ih (k + 1) _ st' hk' hval h
+        · rw [h2]; right; rfl
+    · simp only [hlt, if_false] at h ⊢
+      left; exact h
+
+open EzdxfVerif.Gen.FlattenKernels in
+/-- **the two Bezier twins agree on whole flattenings**: for `segments < 10^9`, whenever the pure Python
+    `Bezier4P/3P.flattening` (stack machine, `math.isclose` defaults) finishes and returns `out`, the Cython twin
+    (recursion with any `RECURSION_LIMIT`, `isclose(…, REL_TOL, ABS_TOL)`) run with the same outer fuel returns exactly
+    the same vertex list - or raises `RecursionError`, and nothing else.  Any curve, any test, any tolerance. -/
+theorem twins_agree (C : Curve V) (first last : V) (n fuel subfuel budget : Nat) (out : List (TV V))
+    (hn : 0 < n) (hn9 : n < 10 ^ 9)
+    (h : bezierFlat C (stackSub C subfuel) mathRelTol mathAbsTol first last n fuel = .ok out) :
+    bezierFlat C (recSub C budget) pyxRelTol pyxAbsTol first last n fuel = .ok out ∨
+    bezierFlat C (recSub C budget) pyxRelTol pyxAbsTol first last n fuel = .error .recursion := by
+  have hq : (n : Rat) < 10 ^ 9 := by exact_mod_cast hn9
+  have hnq : (0 : Rat) < n := by exact_mod_cast hn
+  unfold bezierFlat at h ⊢
+  split at h
+  · rename_i st hst
+    simp only [Except.ok.injEq] at h
+    have := spanLoop_twin C (stackSub C subfuel) (recSub C budget)
+      (fun t0 s t1 e l hl => (rec_eq_stack C subfuel t0 s t1 e l hl).2 budget)
+      (pyIsclose mathRelTol mathAbsTol) (pyIsclose pyxRelTol pyxAbsTol) (1 / (n : Rat)) 1 last 0 n
+      (by rw [zero_add, mul_one_div, div_self (ne_of_gt hnq)])
+      (no_early_snap mathRelTol mathAbsTol n (by norm_num [mathRelTol]) (by rw [mathRelTol]; linarith)
+        (by rw [mathAbsTol]; norm_num))
+      (no_early_snap pyxRelTol pyxAbsTol n (by norm_num [pyxRelTol]) (by rw [pyxRelTol]; linarith)
+        (by rw [pyxAbsTol]; linarith))
+      (pyIsclose_self _ _ _) (pyIsclose_self _ _ _) fuel 0 _ st (Nat.zero_le _) (by simp) hst
+    rcases this with h2 | h2
+    · left; rw [h2]; simp [h]
+    · right; rw [h2]
+  · simp at h
+
+/-! ## termination -/
+
+/-- **conditional termination of the recursion** (any curve, any test that never raises): if every chord
+    inside the parameter range `[lo, hi]` that is narrower than `w` is accepted, a chord of width at most `w · 2^k`
+    inside the range is flattened within `k + 1` recursion levels -/
+theorem recSub_terminates (C : Curve V) (w lo hi : Rat)
+    (hacc : ∀ t0 t1 : Rat, lo ≤ t0 → t1 ≤ hi → t0 < t1 → t1 - t0 ≤ w →
+      C.test (C.P t0) (C.P t1) (C.P ((t0 + t1) * (1/2))) = .accept)
+    (hnr : ∀ s e m, C.test s e m ≠ .raise) :
+    ∀ (k : Nat) (t0 t1 : Rat), lo ≤ t0 → t1 ≤ hi → t0 < t1 → t1 - t0 ≤ w * 2 ^ k →
+      ∃ l, recSub C (k + 1) t0 (C.P t0) t1 (C.P t1) = .ok l := by
+  intro k
+  induction k with
+  | zero =>
+    intro t0 t1 hlo hhi hlt hw
+    refine ⟨[(t1, C.P t1)], ?_⟩
+    unfold recSub
+    simp only [hacc t0 t1 hlo hhi hlt (by simpa using hw)]
+  | succ k ih =>
+    intro t0 t1 hlo hhi hlt hw
+    have hm1 : t0 < (t0 + t1) * (1/2) := by linarith
+    have hm2 : (t0 + t1) * (1/2) < t1 := by linarith
+    have hw' : w * 2 ^ (k + 1) = 2 * (w * 2 ^ k) := by rw [pow_succ]; ring
+    obtain ⟨l1, h1⟩ := ih t0 ((t0 + t1) * (1/2)) hlo (by linarith) hm1 (by rw [hw'] at hw; linarith)
+    obtain ⟨l2, h2⟩ := ih ((t0 + t1) * (1/2)) t1 (by linarith) hhi hm2 (by rw [hw'] at hw; linarith)
+    unfold recSub
+    simp only
+    cases ht : C.test (C.P t0) (C.P t1) (C.P ((t0 + t1) * (1/2))) with
+    | accept => exact ⟨_, rfl⟩
+    | split => simp only [h1, h2]; exact ⟨_, rfl⟩
+    | raise => exact absurd ht (hnr _ _ _)
+
+/-- the stack machine needs at most `2^b` steps where the recursion needs budget `b` -/
+private theorem stack_simulates_rec_bound (C : Curve V) :
+    ∀ (b : Nat) (t0 : Rat) (s : V) (t1 : Rat) (e : V) (l : List (TV V)),
+      recSub C b t0 s t1 e = .ok l →
+      ∃ c : Nat, c + 1 ≤ 2 ^ b ∧ ∀ (k : Nat) (stack out : List (TV V)),
+        stackLoop C (c + k) t0 s t1 e stack out =
+          match stack with
+          | [] => .ok (l.reverse ++ out)
+          | (t', e') :: rest => stackLoop C k t1 e t' e' rest (l.reverse ++ out) := by
+  intro b
+  induction b with
+  | zero => intro t0 s t1 e l h; simp [recSub] at h
+  | succ b ih =>
+    intro t0 s t1 e l h
+    unfold recSub at h
+    simp only at h
+    have hpow : 1 ≤ 2 ^ b := Nat.one_le_two_pow
+    split at h
+    · rename_i hacc
+      simp only [Except.ok.injEq] at h
+      subst h
+      refine ⟨1, by rw [pow_succ]; omega, ?_⟩
+      intro k stack out
+      rw [Nat.add_comm]
+      simp only [stackLoop, hacc]
+      cases stack with
+      | nil => simp
+      | cons top rest => obtain ⟨t', e'⟩ := top; simp
+    · rename_i hsplit
+      split at h
+      · simp at h
+      · rename_i l1 h1
+        split at h
+        · simp at h
+        · rename_i l2 h2
+          simp only [Except.ok.injEq] at h
+          subst h
+          obtain ⟨c1, hb1, hc1⟩ := ih _ _ _ _ _ h1
+          obtain ⟨c2, hb2, hc2⟩ := ih _ _ _ _ _ h2
+          refine ⟨1 + (c1 + c2), by rw [pow_succ]; omega, ?_⟩
+          intro k stack out
+          have : 1 + (c1 + c2) + k = (c1 + (c2 + k)) + 1 := by omega
+          rw [this]
+          simp only [stackLoop, hsplit]
+          rw [hc1 (c2 + k) ((t1, e) :: stack) out]
+          simp only
+          rw [hc2 k stack (l1.reverse ++ out)]
+          cases stack with
+          | nil => simp
+          | cons top rest => obtain ⟨t', e'⟩ := top; simp
+    · simp at h
+
+/-- `stack_eq_rec` with an explicit fuel: `2^b` steps of the Python loop suffice where the recursion needs budget `b` -/
+theorem stack_eq_rec_fuel (C : Curve V) (b : Nat) (t0 : Rat) (s : V) (t1 : Rat) (e : V) (l : List (TV V))
+    (h : recSub C b t0 s t1 e = .ok l) : ∀ k, stackSub C (2 ^ b + k) t0 s t1 e = .ok l := by
+  obtain ⟨c, hb, hc⟩ := stack_simulates_rec_bound C b t0 s t1 e l h
+  intro k
+  unfold stackSub
+  have : 2 ^ b + k = c + (2 ^ b - c + k) := by omega
+  rw [this, hc _ [] []]
+  simp
+
+private theorem spanLoop_total (C : Curve V) (sub : Rat → V → Rat → V → Except Err (List (TV V)))
+    (close : Rat → Rat → Bool) (delta tEnd : Rat) (endPt : V)
+    (a : Rat)
+    (hsub : ∀ t0 t1 : Rat, a ≤ t0 → t1 ≤ tEnd → t0 < t1 → t1 - t0 ≤ delta → ∃ l, sub t0 (C.P t0) t1 (C.P t1) = .ok l)
+    (hδ : 0 < delta) (hend : endPt = C.P tEnd) (n : Nat) (hn : a + n * delta = tEnd)
+    (hsnap : ∀ k : Nat, k + 1 < n → close (a + ((k : Rat) + 1) * delta) tEnd = false) :
+    ∀ (fuel k : Nat) (st : St V), k ≤ n → st.t = a + k * delta → st.s = C.P st.t → n - k < fuel →
+      ∃ st', spanLoop C sub close delta tEnd endPt fuel st = .ok st' := by
+  intro fuel
+  induction fuel with
+  | zero => intro k st _ _ _ hf; omega
+  | succ fuel ih =>
+    intro k st hk ht hs hf
+    unfold spanLoop
+    by_cases hlt : st.t < tEnd
+    · simp only [hlt, if_true]
+      have hk' : k < n := by
+        rcases Nat.lt_or_ge k n with h' | h'
+        · exact h'
+        · have : k = n := le_antisymm hk h'
+          subst this; rw [ht, hn] at hlt; exact absurd hlt (lt_irrefl _)
+      have ht1 : st.t + delta = a + ((k : Rat) + 1) * delta := by rw [ht]; ring
+      have key : (if close (st.t + delta) tEnd then tEnd else st.t + delta) = a + ((k + 1 : Nat) : Rat) * delta ∧
+          (if close (st.t + delta) tEnd then endPt else C.P (st.t + delta)) =
+            C.P (if close (st.t + delta) tEnd then tEnd else st.t + delta) := by
+        by_cases hsn : close (st.t + delta) tEnd = true
+        · simp only [hsn, if_true]
+          have : ¬ (k + 1 < n) := by
+            intro hc
+            have := hsnap k hc
+            rw [← ht1, hsn] at this; exact Bool.noConfusion this
+          have hkn : k + 1 = n := by omega
+          exact ⟨by rw [← hn, ← hkn], hend⟩
+        · have hsn' : close (st.t + delta) tEnd = false := by simpa using hsn
+          simp only [hsn', Bool.false_eq_true, if_false]
+          exact ⟨by rw [ht1]; push_cast; ring, trivial⟩
+      obtain ⟨hval, hpt⟩ := key
+      generalize (if close (st.t + delta) tEnd then tEnd else st.t + delta) = t1' at hval hpt ⊢
+      generalize (if close (st.t + delta) tEnd then endPt else C.P (st.t + delta)) = e' at hpt ⊢
+      have hwidth : t1' - st.t = delta := by rw [hval, ht]; push_cast; ring
+      have hk0 : (0 : Rat) ≤ k := by exact_mod_cast Nat.zero_le k
+      have hk1 : ((k + 1 : Nat) : Rat) ≤ n := by exact_mod_cast hk'
+      obtain ⟨l, hl⟩ := hsub st.t t1' (by rw [ht]; nlinarith) (by rw [hval, ← hn]; nlinarith) (by linarith)
+        (le_of_eq hwidth)
+      rw [hs, hpt, hl]
+      simp only
+      exact ih (k + 1) ⟨t1', C.P t1', st.out ++ l⟩ hk' hval rfl (by omega)
+    · simp only [hlt, if_false]
+      exact ⟨st, rfl⟩
+
+/-- **conditional termination of a whole Bezier flattening, both twins**: if every chord in `[0, 1]` narrower than `w` passes
+    the coded test (which never raises) and `1 ≤ w · 2^k`, then for every `segments = n ≥ 1` (below 1/tolerance)
+    the Cython twin with recursion budget `k + 1` and the pure Python twin with `2^(k+1)` loop steps per chord both
+    FINISH with outer fuel `n + 2`, and they return the same vertex list (which `bezierFlat_sound` describes). -/
+theorem flat_terminates (C : Curve V) (w : Rat)
+    (hacc : ∀ t0 t1 : Rat, 0 ≤ t0 → t1 ≤ 1 → t0 < t1 → t1 - t0 ≤ w →
+      C.test (C.P t0) (C.P t1) (C.P ((t0 + t1) * (1/2))) = .accept)
+    (hnr : ∀ s e m, C.test s e m ≠ .raise) (k : Nat) (hk : 1 ≤ w * 2 ^ k)
+    (relTol absTol : Rat) (n : Nat) (hn : 0 < n) (h0 : 0 ≤ relTol) (hr : relTol * n < 1) (ha : absTol * n < 1) :
+    ∃ out, bezierFlat C (recSub C (k + 1)) relTol absTol (C.P 0) (C.P 1) n (n + 2) = .ok out ∧
+      bezierFlat C (stackSub C (2 ^ (k + 1))) relTol absTol (C.P 0) (C.P 1) n (n + 2) = .ok out := by
+  have hnq : (0 : Rat) < n := by exact_mod_cast hn
+  have hδ : (0 : Rat) < 1 / (n : Rat) := by positivity
+  have hδ1 : 1 / (n : Rat) ≤ 1 := by
+    rw [div_le_one hnq]; exact_mod_cast hn
+  have hsubR : ∀ t0 t1 : Rat, 0 ≤ t0 → t1 ≤ 1 → t0 < t1 → t1 - t0 ≤ 1 / (n : Rat) →
+      ∃ l, recSub C (k + 1) t0 (C.P t0) t1 (C.P t1) = .ok l :=
+    fun t0 t1 hlo hhi hlt hwd => recSub_terminates C w 0 1 hacc hnr k t0 t1 hlo hhi hlt (by linarith)
+  have hsum : (0 : Rat) + n * (1 / (n : Rat)) = 1 := by rw [zero_add, mul_one_div, div_self (ne_of_gt hnq)]
+  obtain ⟨st, hst⟩ := spanLoop_total C (recSub C (k + 1)) (pyIsclose relTol absTol) (1 / (n : Rat)) 1 (C.P 1) 0 hsubR hδ rfl
+    n hsum (no_early_snap relTol absTol n h0 hr ha) (n + 2) 0 ⟨0, C.P 0, [(0, C.P 0)]⟩ (Nat.zero_le _) (by simp) rfl
+    (by omega)
+  refine ⟨st.out, by unfold bezierFlat; rw [hst], ?_⟩
+  -- the Python twin follows the same run: every chord result of the recursion is reproduced by the stack machine
+  have hrel : ∀ t0 s t1 e l, recSub C (k + 1) t0 s t1 e = .ok l →
+      stackSub C (2 ^ (k + 1)) t0 s t1 e = .ok l ∨ stackSub C (2 ^ (k + 1)) t0 s t1 e = .error .recursion :=
+    fun t0 s t1 e l hl => Or.inl (by simpa using stack_eq_rec_fuel C (k + 1) t0 s t1 e l hl 0)
+  have := spanLoop_twin C (recSub C (k + 1)) (stackSub C (2 ^ (k + 1))) hrel
+    (pyIsclose relTol absTol) (pyIsclose relTol absTol) (1 / (n : Rat)) 1 (C.P 1) 0 n hsum
+    (no_early_snap relTol absTol n h0 hr ha) (no_early_snap relTol absTol n h0 hr ha)
+    (pyIsclose_self _ _ _) (pyIsclose_self _ _ _) (n + 2) 0 _ st (Nat.zero_le _) (by simp) hst
+  rcases this with h2 | h2
+  · unfold bezierFlat; rw [h2]
+  · -- the stack machine has no recursion error: its only failure is fuel
+    exfalso
+    have hno : ∀ (fuel : Nat) (t0 : Rat) (s : V) (t1 : Rat) (e : V) (stack out : List (TV V)),
+        stackLoop C fuel t0 s t1 e stack out ≠ .error .recursion := by
+      intro fuel
+      induction fuel with
+      | zero => intro t0 s t1 e stack out h; simp [stackLoop] at h
+      | succ fuel ih =>
+        intro t0 s t1 e stack out h
+        unfold stackLoop at h
+        simp only at h
+        split at h
+        · cases stack with
+          | nil => simp at h
+          | cons top rest => exact ih _ _ _ _ _ _ h
+        · exact ih _ _ _ _ _ _ h
+        · simp at h
+    have hnoSub : ∀ t0 s t1 e, stackSub C (2 ^ (k + 1)) t0 s t1 e ≠ .error .recursion := by
+      intro t0 s t1 e h
+      unfold stackSub at h
+      split at h
+      · simp at h
+      · rename_i x hx
+        simp only [Except.error.injEq] at h
+        subst h
+        exact hno _ _ _ _ _ _ _ hx
+    have hnoSpan : ∀ (fuel : Nat) (st0 : St V),
+        spanLoop C (stackSub C (2 ^ (k + 1))) (pyIsclose relTol absTol) (1 / (n : Rat)) 1 (C.P 1) fuel st0
+          ≠ .error .recursion := by
+      intro fuel
+      induction fuel with
+      | zero => intro st0 h; simp [spanLoop] at h
+      | succ fuel ih =>
+        intro st0 h
+        unfold spanLoop at h
+        split at h
+        · simp only at h
+          split at h
+          · rename_i x hx
+            simp only [Except.error.injEq] at h
+            subst h
+            exact hnoSub _ _ _ _ hx
+          · exact ih _ h
+        · simp at h
+    exact hnoSpan _ _ h2
+
+private theorem bez3_mid_deviation (p0 p1 p2 : V3) (t0 t1 : Rat) :
+    V3.dist2 (V3.lerp (bez3Point p0 p1 p2 t0) (bez3Point p0 p1 p2 t1) (1/2))
+      (bez3Point p0 p1 p2 ((t0 + t1) * (1/2))) =
+      (t1 - t0) ^ 4 / 16 *
+        V3.dot ((p0.sub (V3.smul 2 p1)).add p2) ((p0.sub (V3.smul 2 p1)).add p2) := by
+  simp only [V3.dist2, V3.lerp, bez3Point, V3.add, V3.sub, V3.smul, V3.dot]
+  ring
+
+private theorem bez4_mid_deviation (p0 p1 p2 p3 : V3) (t0 t1 : Rat) :
+    V3.dist2 (V3.lerp (bez4Point p0 p1 p2 p3 t0) (bez4Point p0 p1 p2 p3 t1) (1/2))
+      (bez4Point p0 p1 p2 p3 ((t0 + t1) * (1/2))) =
+      (t1 - t0) ^ 4 / 16 *
+        V3.dot ((V3.smul 3 ((p2.sub (V3.smul 2 p1)).add p0)).add
+            (V3.smul (3 / 2 * (t0 + t1)) (((p3.sub (V3.smul 3 p2)).add (V3.smul 3 p1)).sub p0)))
+          ((V3.smul 3 ((p2.sub (V3.smul 2 p1)).add p0)).add
+            (V3.smul (3 / 2 * (t0 + t1)) (((p3.sub (V3.smul 3 p2)).add (V3.smul 3 p1)).sub p0))) := by
+  simp only [V3.dist2, V3.lerp, bez4Point, V3.add, V3.sub, V3.smul, V3.dot]
+  ring
+
+private theorem sq_add_smul_le (x y σ : Rat) (h0 : 0 ≤ σ) (h3 : σ ≤ 3) :
+    (x + σ * y) * (x + σ * y) ≤ 4 * (x * x) + 12 * (y * y) := by
+  have h1 : 2 * (x * y) ≤ x * x + y * y := by nlinarith [sq_nonneg (x - y)]
+  have hx := mul_self_nonneg x
+  have hy := mul_self_nonneg y
+  have e : (x + σ * y) * (x + σ * y) = x * x + σ * (2 * (x * y)) + σ * σ * (y * y) := by ring
+  have h2 : σ * (2 * (x * y)) ≤ σ * (x * x + y * y) := mul_le_mul_of_nonneg_left h1 h0
+  have h4 : σ * σ ≤ 9 := by nlinarith
+  nlinarith [mul_nonneg h0 hx, mul_nonneg h0 hy, mul_nonneg (sub_nonneg.mpr h3) hx, mul_nonneg (sub_nonneg.mpr h3) hy,
+    mul_nonneg (sub_nonneg.mpr h4) hy]
+
+/-- shared tail of the two unconditional termination theorems: a bound `M` on the squared second-difference vector
+    gives the accepted width `16 d² / (M + 16 d²)` and from it both twins' finished, equal runs -/
+private theorem bezier_terminates_of_bound (P : Rat → V3) (d M : Rat) (hd : 0 < d) (hM : 0 ≤ M)
+    (hdev : ∀ t0 t1 : Rat, 0 ≤ t0 → t1 ≤ 1 → t0 < t1 →
+      V3.dist2 (V3.lerp (P t0) (P t1) (1/2)) (P ((t0 + t1) * (1/2))) ≤ (t1 - t0) ^ 4 / 16 * M)
+    (n : Nat) (hn : 0 < n) (hn9 : n < 10 ^ 9) :
+    ∃ (b : Nat) (out : List (TV V3)),
+      bezierFlat ⟨P, midTest d⟩ (recSub ⟨P, midTest d⟩ b) (1e-9) (1e-12) (P 0) (P 1) n (n + 2) = .ok out ∧
+      bezierFlat ⟨P, midTest d⟩ (stackSub ⟨P, midTest d⟩ (2 ^ b)) (1e-9) 0 (P 0) (P 1) n (n + 2) = .ok out := by
+  have hd2 : 0 < d * d := mul_pos hd hd
+  set w : Rat := 16 * (d * d) / (M + 16 * (d * d)) with hw
+  have hden : 0 < M + 16 * (d * d) := by linarith
+  have hw0 : 0 < w := div_pos (by linarith) hden
+  have hw1 : w ≤ 1 := by rw [hw, div_le_one hden]; linarith
+  have hacc : ∀ t0 t1 : Rat, 0 ≤ t0 → t1 ≤ 1 → t0 < t1 → t1 - t0 ≤ w →
+      midTest d (P t0) (P t1) (P ((t0 + t1) * (1/2))) = .accept := by
+    intro t0 t1 hlo hhi hlt hwd
+    rw [midTest_accept_iff]
+    refine ⟨hd, lt_of_le_of_lt (hdev t0 t1 hlo hhi hlt) ?_⟩
+    set h := t1 - t0 with hh
+    have hh0 : 0 < h := by linarith
+    have hh1 : h ≤ 1 := le_trans hwd hw1
+    have h4 : h ^ 4 ≤ h := by
+      have h2 : h * h ≤ h := by nlinarith
+      have h3 : h * h * h ≤ h := by nlinarith
+      have : h ^ 4 = h * h * h * h := by ring
+      rw [this]; nlinarith
+    have hwM : w * M < 16 * (d * d) := by
+      rw [hw, div_mul_eq_mul_div, div_lt_iff₀ hden]
+      nlinarith
+    have : h ^ 4 * M ≤ w * M := mul_le_mul_of_nonneg_right (le_trans h4 hwd) hM
+    have e : h ^ 4 / 16 * M = h ^ 4 * M / 16 := by ring
+    rw [e, div_lt_iff₀ (by norm_num : (0 : Rat) < 16)]
+    linarith
+  have hnr : ∀ s e m, midTest d s e m ≠ .raise := by
+    intro s e m; unfold midTest; split <;> simp
+  obtain ⟨k, hk⟩ := exists_nat_ge (1 / w)
+  have hk2 : 1 ≤ w * 2 ^ k := by
+    have h1 : (k : Rat) < 2 ^ k := by exact_mod_cast Nat.lt_two_pow_self
+    have h2 : 1 / w < 2 ^ k := lt_of_le_of_lt hk h1
+    rw [div_lt_iff₀ hw0] at h2
+    linarith
+  have hq : (n : Rat) < 10 ^ 9 := by exact_mod_cast hn9
+  obtain ⟨out1, h1, _⟩ := flat_terminates ⟨P, midTest d⟩ w hacc hnr k hk2 (1e-9) (1e-12) n hn
+    (by norm_num) (by linarith) (by linarith)
+  obtain ⟨out2, h2a, h2b⟩ := flat_terminates ⟨P, midTest d⟩ w hacc hnr k hk2 (1e-9) 0 n hn
+    (by norm_num) (by linarith) (by linarith)
+  have hsame : out1 = out2 := by
+    have hnq : (0 : Rat) < n := by exact_mod_cast hn
+    unfold bezierFlat at h1 h2a
+    split at h1
+    · rename_i st1 hst1
+      split at h2a
+      · rename_i st2 hst2
+        have := spanLoop_twin ⟨P, midTest d⟩ (recSub _ (k + 1)) (recSub _ (k + 1))
+          (fun _ _ _ _ _ hl => Or.inl hl)
+          (pyIsclose (1e-9) (1e-12)) (pyIsclose (1e-9) 0) (1 / (n : Rat)) 1 (P 1) 0 n
+          (by rw [zero_add, mul_one_div, div_self (ne_of_gt hnq)])
+          (no_early_snap (1e-9) (1e-12) n (by norm_num) (by linarith) (by linarith))
+          (no_early_snap (1e-9) 0 n (by norm_num) (by linarith) (by linarith))
+          (pyIsclose_self _ _ _) (pyIsclose_self _ _ _) (n + 2) 0 _ st1 (Nat.zero_le _) (by simp) hst1
+        rcases this with h3 | h3
+        · rw [h3] at hst2
+          simp only [Except.ok.injEq] at hst2 h1 h2a
+          rw [← h1, ← h2a, hst2]
+        · rw [h3] at hst2; simp at hst2
+      · simp at h2a
+    · simp at h1
+  exact ⟨k + 1, out1, h1, by rw [hsame]; exact h2b⟩
+
+/-- **`Bezier3P.flattening` terminates** - unconditionally: for every quadratic Bezier curve, every tolerance
+    `d > 0` and every `segments` in `1 ‥ 10^9 - 1` there is a recursion budget `b` with which the Cython twin returns
+    a vertex list (no `RecursionError` from budget `b` on), and the pure Python twin returns the same list within
+    `2^b` loop steps per chord.  (The mid-point deviation of a quadratic on a chord of width `h` is exactly
+    `h² |p0 - 2 p1 + p2| / 4`, so every chord narrower than `16 d² / (|p0 - 2 p1 + p2|² + 16 d²)` is accepted.) -/
+theorem bezier3_terminates (p0 p1 p2 : V3) (d : Rat) (hd : 0 < d) (n : Nat) (hn : 0 < n) (hn9 : n < 10 ^ 9) :
+    ∃ (b : Nat) (out : List (TV V3)),
+      bezierFlat ⟨bez3Point p0 p1 p2, midTest d⟩ (recSub ⟨bez3Point p0 p1 p2, midTest d⟩ b)
+        (1e-9) (1e-12) p0 p2 n (n + 2) = .ok out ∧
+      bezierFlat ⟨bez3Point p0 p1 p2, midTest d⟩ (stackSub ⟨bez3Point p0 p1 p2, midTest d⟩ (2 ^ b))
+        (1e-9) 0 p0 p2 n (n + 2) = .ok out := by
+  have hz : bez3Point p0 p1 p2 0 = p0 := by
+    cases p0; cases p1; cases p2; simp [bez3Point, V3.add, V3.sub, V3.smul]
+  have ho : bez3Point p0 p1 p2 1 = p2 := by
+    cases p0; cases p1; cases p2; simp [bez3Point, V3.add, V3.sub, V3.smul]
+  have := bezier_terminates_of_bound (bez3Point p0 p1 p2) d
+    (V3.dot ((p0.sub (V3.smul 2 p1)).add p2) ((p0.sub (V3.smul 2 p1)).add p2)) hd (dot_self_nonneg _)
+    (fun t0 t1 _ _ _ => le_of_eq (bez3_mid_deviation p0 p1 p2 t0 t1)) n hn hn9
+  simpa only [hz, ho] using this
+
+/-- **`Bezier4P.flattening` terminates** - unconditionally: for every cubic Bezier curve, every tolerance `d > 0`
+    and every `segments` in `1 ‥ 10^9 - 1` there is a recursion budget `b` with which the Cython twin returns a
+    vertex list, and the pure Python twin returns the same list within `2^b` loop steps per chord.  (On a chord of
+    width `h` inside `[0, 1]` the mid-point deviation of a cubic is `h²/4 · |a₂ + 3/2 (t₀+t₁) a₃|` with
+    `a₂ = 3 (p0 - 2 p1 + p2)`, `a₃ = p3 - 3 p2 + 3 p1 - p0`, at most `h²/4 · √(4 |a₂|² + 12 |a₃|²)`.) -/
+theorem bezier4_terminates (p0 p1 p2 p3 : V3) (d : Rat) (hd : 0 < d) (n : Nat) (hn : 0 < n) (hn9 : n < 10 ^ 9) :
+    ∃ (b : Nat) (out : List (TV V3)),
+      bezierFlat ⟨bez4Point p0 p1 p2 p3, midTest d⟩ (recSub ⟨bez4Point p0 p1 p2 p3, midTest d⟩ b)
+        (1e-9) (1e-12) p0 p3 n (n + 2) = .ok out ∧
+      bezierFlat ⟨bez4Point p0 p1 p2 p3, midTest d⟩ (stackSub ⟨bez4Point p0 p1 p2 p3, midTest d⟩ (2 ^ b))
+        (1e-9) 0 p0 p3 n (n + 2) = .ok out := by
+  set a2 := V3.smul 3 ((p2.sub (V3.smul 2 p1)).add p0) with ha2
+  set a3 := ((p3.sub (V3.smul 3 p2)).add (V3.smul 3 p1)).sub p0 with ha3
+  have hz : bez4Point p0 p1 p2 p3 0 = p0 := by
+    cases p0; cases p1; cases p2; cases p3; simp [bez4Point, V3.add, V3.sub, V3.smul]
+  have ho : bez4Point p0 p1 p2 p3 1 = p3 := by
+    cases p0; cases p1; cases p2; cases p3; simp [bez4Point, V3.add, V3.sub, V3.smul]
+  have := bezier_terminates_of_bound (bez4Point p0 p1 p2 p3) d (4 * V3.dot a2 a2 + 12 * V3.dot a3 a3) hd
+    (by have := dot_self_nonneg a2; have := dot_self_nonneg a3; linarith)
+    (by
+      intro t0 t1 hlo hhi hlt
+      rw [bez4_mid_deviation, ← ha2, ← ha3]
+      have hσ0 : 0 ≤ 3 / 2 * (t0 + t1) := by nlinarith
+      have hσ3 : 3 / 2 * (t0 + t1) ≤ 3 := by nlinarith
+      have hb : V3.dot (a2.add (V3.smul (3 / 2 * (t0 + t1)) a3)) (a2.add (V3.smul (3 / 2 * (t0 + t1)) a3)) ≤
+          4 * V3.dot a2 a2 + 12 * V3.dot a3 a3 := by
+        simp only [V3.dot, V3.add, V3.smul]
+        have hx := sq_add_smul_le a2.x a3.x _ hσ0 hσ3
+        have hy := sq_add_smul_le a2.y a3.y _ hσ0 hσ3
+        have hz' := sq_add_smul_le a2.z a3.z _ hσ0 hσ3
+        linarith
+      have hh : 0 ≤ (t1 - t0) ^ 4 / 16 := by positivity
+      exact mul_le_mul_of_nonneg_left hb hh)
+    n hn hn9
+  simpa only [hz, ho] using this
+
+/-! ## what the mid-point criterion says about the WHOLE chord -/
+
+/-- **quadratic Bezier curves: the mid-point test bounds the whole chord.**  On the chord `[t0, t1]` the curve point at
+    relative position `u` deviates from the chord point at the same relative position by exactly `4 u (1 - u)` times the
+    mid-point deviation (squared form) … -/
+theorem bezier3_deviation_profile (p0 p1 p2 : V3) (t0 t1 u : Rat) :
+    V3.dist2 (V3.lerp (bez3Point p0 p1 p2 t0) (bez3Point p0 p1 p2 t1) u) (bez3Point p0 p1 p2 (t0 + u * (t1 - t0))) =
+      (4 * u * (1 - u)) ^ 2 *
+        V3.dist2 (V3.lerp (bez3Point p0 p1 p2 t0) (bez3Point p0 p1 p2 t1) (1/2))
+          (bez3Point p0 p1 p2 ((t0 + t1) * (1/2))) := by
+  simp only [V3.dist2, V3.lerp, bez3Point, V3.add, V3.sub, V3.smul, V3.dot]
+  ring
+
+/-- … hence an accepted chord of `Bezier3P.flattening` approximates the WHOLE curve piece within `distance`: every
+    curve point between the two vertices lies within `distance` of the chord (not only the one at the middle
+    parameter) -/
+theorem bezier3_accepted_chord_is_close (p0 p1 p2 : V3) (d t0 t1 u : Rat) (hu0 : 0 ≤ u) (hu1 : u ≤ 1)
+    (h : midTest d (bez3Point p0 p1 p2 t0) (bez3Point p0 p1 p2 t1) (bez3Point p0 p1 p2 ((t0 + t1) * (1/2))) = .accept) :
+    WithinChord d (bez3Point p0 p1 p2 t0) (bez3Point p0 p1 p2 t1) (bez3Point p0 p1 p2 (t0 + u * (t1 - t0))) := by
+  obtain ⟨hd, hlt⟩ := (midTest_accept_iff _ _ _ _).mp h
+  refine ⟨u, hu0, hu1, ?_⟩
+  rw [bezier3_deviation_profile]
+  have hk0 : 0 ≤ 4 * u * (1 - u) := by nlinarith
+  have hk1 : 4 * u * (1 - u) ≤ 1 := by nlinarith [sq_nonneg (2 * u - 1)]
+  have hk : (4 * u * (1 - u)) ^ 2 ≤ 1 := by nlinarith
+  have hnn : 0 ≤ V3.dist2 (V3.lerp (bez3Point p0 p1 p2 t0) (bez3Point p0 p1 p2 t1) (1/2))
+      (bez3Point p0 p1 p2 ((t0 + t1) * (1/2))) := dot_self_nonneg _
+  nlinarith
+
+/-- **cubic Bezier curves: the mid-point test is blind at an inflection.**  For the S-shaped cubic
+    (0,0) (1,2) (2,-2) (3,0) the curve point at the middle parameter lies ON the chord of the whole curve, so
+    `flattening(distance, segments=1)` accepts that single chord for EVERY positive distance - the run meets the
+    documented criterion - although the curve is 9/16 away from the chord at t = 1/4.  (Only the minimum segment count
+    protects against this; not a violation of the property, which states the mid-parameter criterion.) -/
+theorem cubic_midpoint_test_blind_at_inflection :
+    ∃ (p0 p1 p2 p3 : V3), ∀ (d : Rat) (b : Nat), 0 < d →
+      bezierFlat ⟨bez4Point p0 p1 p2 p3, midTest d⟩ (recSub ⟨bez4Point p0 p1 p2 p3, midTest d⟩ (b + 1))
+        (1e-9) (1e-12) p0 p3 1 3 = .ok [(0, p0), (1, p3)] ∧
+      ¬ WithinChord (1/2) p0 p3 (bez4Point p0 p1 p2 p3 (1/4)) := by
+  refine ⟨⟨0, 0, 0⟩, ⟨1, 2, 0⟩, ⟨2, -2, 0⟩, ⟨3, 0, 0⟩, fun d b hd => ⟨?_, ?_⟩⟩
+  · have hacc : midTest d (⟨0, 0, 0⟩ : V3) ⟨3, 0, 0⟩
+        (bez4Point ⟨0, 0, 0⟩ ⟨1, 2, 0⟩ ⟨2, -2, 0⟩ ⟨3, 0, 0⟩ ((0 + 1) * (1/2))) = .accept := by
+      rw [midTest_accept_iff]
+      refine ⟨hd, ?_⟩
+      have : V3.dist2 (V3.lerp (⟨0, 0, 0⟩ : V3) ⟨3, 0, 0⟩ (1/2))
+          (bez4Point ⟨0, 0, 0⟩ ⟨1, 2, 0⟩ ⟨2, -2, 0⟩ ⟨3, 0, 0⟩ ((0 + 1) * (1/2))) = 0 := by
+        simp only [V3.dist2, V3.lerp, bez4Point, V3.add, V3.sub, V3.smul, V3.dot]; norm_num
+      rw [this]; exact mul_pos hd hd
+    have hsub : recSub ⟨bez4Point ⟨0, 0, 0⟩ ⟨1, 2, 0⟩ ⟨2, -2, 0⟩ ⟨3, 0, 0⟩, midTest d⟩ (b + 1) 0 ⟨0, 0, 0⟩ 1 ⟨3, 0, 0⟩ =
+        .ok [(1, ⟨3, 0, 0⟩)] := by
+      unfold recSub
+      simp only [hacc]
+    have hone : (0 : Rat) + 1 / ((1 : Nat) : Rat) = 1 := by norm_num
+    have hsnap : pyIsclose (1e-9) (1e-12) (1 : Rat) 1 = true := pyIsclose_self _ _ _
+    unfold bezierFlat
+    unfold spanLoop
+    simp only [show (0 : Rat) < 1 by norm_num, if_true, hone, hsnap, hsub]
+    unfold spanLoop
+    simp
+  · rintro ⟨lam, h0, h1, hlt⟩
+    simp only [V3.dist2, V3.lerp, bez4Point, V3.add, V3.sub, V3.smul, V3.dot] at hlt
+    nlinarith [sq_nonneg (3 * lam - 51/64)]
 
 /-! ## arcs: `arc_chord_length` / `arc_segment_count` over the reals -/
 
@@ -1044,6 +2030,89 @@ theorem chord_sagitta (r m h : ℝ) :
   rw [Real.cos_sub, Real.cos_add, Real.sin_sub, Real.sin_add]
   linear_combination (r ^ 2 * (1 - Real.cos h) ^ 2) * Real.sin_sq_add_cos_sq m
 
+/-! ### the whole run of `ConstructionArc.flattening` -/
+
+/-- the angle normalisation of `ConstructionArc.flattening` (degrees): `start %= 360; stop %= 360;
+    if stop <= start: stop += 360` -/
+def arcRange (start stop : Rat) : Rat × Rat :=
+  let a := pyMod start 360
+  let b := pyMod stop 360
+  (a, if b ≤ a then b + 360 else b)
+
+/-- the normalised angles always describe a counter-clockwise span in `(0°, 360°]` starting in `[0°, 360°)` -/
+theorem arc_range_spec (start stop : Rat) :
+    0 ≤ (arcRange start stop).1 ∧ (arcRange start stop).1 < 360 ∧
+    0 < (arcRange start stop).2 - (arcRange start stop).1 ∧
+    (arcRange start stop).2 - (arcRange start stop).1 ≤ 360 := by
+  obtain ⟨ha0, ha1⟩ := pyMod_range start 360 (by norm_num)
+  obtain ⟨hb0, hb1⟩ := pyMod_range stop 360 (by norm_num)
+  unfold arcRange
+  simp only
+  split
+  · rename_i h; exact ⟨ha0, ha1, by linarith, by linarith⟩
+  · rename_i h; exact ⟨ha0, ha1, by linarith [not_le.mp h], by linarith⟩
+
+/-- `math.radians` -/
+noncomputable def radians (deg : ℝ) : ℝ := deg * Real.pi / 180
+
+/-- the angle (radians) of the `k`-th vertex of `self.vertices(np.linspace(start, stop, count + 1))` -/
+noncomputable def arcAngle (a b : ℝ) (n : ℤ) (k : ℝ) : ℝ := radians (a + k * (b - a) / n)
+
+/-- **a whole run of `ConstructionArc.flattening(sagitta)`**: for every radius `r > 0`, every `sagitta > 0` and every
+    pair of angles (degrees, any sign and magnitude) the angle normalisation yields a span `θ ∈ (0, 2π]`,
+    `arc_segment_count(r, θ, sagitta)` returns some `n ≥ 1` (never raises), the `n + 1` vertices at equally spaced
+    angles start exactly at the start angle and end exactly at the end angle, and for EVERY one of the `n` chords the
+    distance between the chord midpoint and the arc point at the middle angle - the sagitta - is at most `sagitta`. -/
+theorem arc_flattening_sound (r s : ℝ) (cx cy : ℝ) (hr : 0 < r) (hs : 0 < s) (start stop : Rat) :
+    let a : ℝ := ((arcRange start stop).1 : ℚ)
+    let b : ℝ := ((arcRange start stop).2 : ℚ)
+    let θ := radians (b - a)
+    0 < θ ∧ θ ≤ 2 * Real.pi ∧
+    ∃ n : ℤ, arcSegmentCount r θ s = .ok (n : ℝ) ∧ 1 ≤ n ∧
+      arcAngle a b n 0 = radians a ∧ arcAngle a b n n = radians b ∧
+      ∀ k : ℝ,
+        (cx + r * Real.cos ((arcAngle a b n k + arcAngle a b n (k + 1)) / 2) -
+            ((cx + r * Real.cos (arcAngle a b n k)) + (cx + r * Real.cos (arcAngle a b n (k + 1)))) / 2) ^ 2 +
+        (cy + r * Real.sin ((arcAngle a b n k + arcAngle a b n (k + 1)) / 2) -
+            ((cy + r * Real.sin (arcAngle a b n k)) + (cy + r * Real.sin (arcAngle a b n (k + 1)))) / 2) ^ 2
+          = (r * (1 - Real.cos (θ / n / 2))) ^ 2 ∧
+        r * (1 - Real.cos (θ / n / 2)) ≤ s := by
+  intro a b θ
+  obtain ⟨_, _, hpos, hle⟩ := arc_range_spec start stop
+  have hposR : (0 : ℝ) < b - a := by
+    have : ((0 : ℚ) : ℝ) < (((arcRange start stop).2 - (arcRange start stop).1 : ℚ) : ℝ) := by exact_mod_cast hpos
+    simpa [a, b] using this
+  have hleR : b - a ≤ 360 := by
+    have : (((arcRange start stop).2 - (arcRange start stop).1 : ℚ) : ℝ) ≤ ((360 : ℚ) : ℝ) := by exact_mod_cast hle
+    simpa [a, b] using this
+  have hθ0 : 0 < θ := by
+    simp only [θ, radians]; have := Real.pi_pos; positivity
+  have hθ2 : θ ≤ 2 * Real.pi := by
+    simp only [θ, radians]
+    have := Real.pi_pos
+    nlinarith
+  refine ⟨hθ0, hθ2, ?_⟩
+  obtain ⟨n, hcount, hn1, hsag⟩ := sagitta_bound r s θ hr hs hθ0 hθ2
+  have hnR : (0 : ℝ) < n := by exact_mod_cast (by omega : (0 : ℤ) < n)
+  refine ⟨n, hcount, hn1, ?_, ?_, ?_⟩
+  · simp [arcAngle]
+  · simp only [arcAngle]; congr 1; field_simp; ring
+  · intro k
+    refine ⟨?_, hsag⟩
+    -- middle angle m and half step h of the k-th chord
+    have hm : (arcAngle a b n k + arcAngle a b n (k + 1)) / 2 = arcAngle a b n k + θ / n / 2 := by
+      simp only [arcAngle, radians, θ]; field_simp; ring
+    have h1 : arcAngle a b n k = (arcAngle a b n k + θ / n / 2) - θ / n / 2 := by ring
+    have h2 : arcAngle a b n (k + 1) = (arcAngle a b n k + θ / n / 2) + θ / n / 2 := by
+      simp only [arcAngle, radians, θ]; field_simp; ring
+    rw [hm]
+    set m := arcAngle a b n k + θ / n / 2 with hmdef
+    rw [h2]
+    have h1' : arcAngle a b n k = m - θ / n / 2 := by rw [hmdef]; ring
+    rw [h1']
+    have := chord_sagitta r m (θ / n / 2)
+    linear_combination this
+
 /-! ## Part 3: ties to the current source (Gen/FlattenKernels.lean is rewritten by every run) -/
 
 section ties
@@ -1107,24 +2176,24 @@ def bezierNKernel : List (String × String) :=
 def bsplineKernel : List (String × String) :=
   [("segments_default", "4"),
    ("subdiv_args", "s, e, start_t, end_t"),
-   ("subdiv_pre", "mid_t = (start_t + end_t) * 0.5; m = evaluator.point(mid_t); try:\n    _dist = distance_point_line_3d(m, s, e)\nexcept ZeroDivisionError:\n    _dist = 0"),
-   ("accept_test", "_dist < distance"),
+   ("subdiv_pre", "mid_t = (start_t + end_t) * 0.5; m = evaluator.point(mid_t)"),
+   ("accept_test", "distance_point_segment_3d(m, s, e) < distance"),
    ("accept_cmp", "Lt"),
    ("accept_then", "yield e"),
    ("accept_else", "yield from subdiv(s, m, start_t, mid_t); yield from subdiv(m, e, mid_t, end_t)"),
    ("prelude", "evaluator = self.evaluator; knots = np.unique(np.array(self.knots())); seg_f64 = np.float64(segments); t = knots[0]; start_point = evaluator.point(t); yield start_point"),
    ("for", "for t1 in knots[1:]"),
-   ("for_body", "delta = (t1 - t) / seg_f64; while t < t1:\n    next_t = t + delta\n    if np.isclose(next_t, t1):\n        next_t = t1\n    end_point = evaluator.point(next_t)\n    yield from subdiv(start_point, end_point, t, next_t)\n    t = next_t\n    start_point = end_point")]
+   ("for_body", "delta = (t1 - t) / seg_f64; while t < t1:\n    next_t = t + delta\n    if math.isclose(next_t, t1):\n        next_t = t1\n    end_point = evaluator.point(next_t)\n    yield from subdiv(start_point, end_point, t, next_t)\n    t = next_t\n    start_point = end_point")]
 
 def ellipseKernel : List (String × String) :=
   [("segments_default", "4"),
    ("subdiv_args", "s, e, s_param, e_param"),
-   ("subdiv_pre", "m_param = (s_param + e_param) * 0.5; m = vertex_(m_param); d = distance_point_line_3d(m, s, e)"),
-   ("accept_test", "d < distance"),
+   ("subdiv_pre", "m_param = (s_param + e_param) * 0.5; m = vertex_(m_param)"),
+   ("accept_test", "distance_point_segment_3d(m, s, e) < distance"),
    ("accept_cmp", "Lt"),
    ("accept_then", "yield e"),
    ("accept_else", "yield from subdiv(s, m, s_param, m_param); yield from subdiv(m, e, m_param, e_param)"),
-   ("prelude", "x_axis = self.major_axis.normalize(); y_axis = self.minor_axis.normalize(); radius_x = self.major_axis.magnitude; radius_y = radius_x * self.ratio; delta = self.param_span / segments; if delta == 0.0:\n    return; param = self.start_param % math.tau; if math.isclose(self.end_param, math.tau):\n    end_param = math.tau\nelse:\n    end_param = self.end_param % math.tau; if math.isclose(param, end_param):\n    return\nelif param > end_param:\n    end_param += math.tau; start_point = vertex_(param); yield start_point"),
+   ("prelude", "x_axis = self.major_axis.normalize(); y_axis = self.minor_axis.normalize(); radius_x = self.major_axis.magnitude; radius_y = radius_x * self.ratio; delta = self.param_span / segments; if delta == 0.0:\n    return; param = self.start_param % math.tau; if math.isclose(self.end_param, math.tau):\n    end_param = math.tau\nelse:\n    end_param = self.end_param % math.tau; if math.isclose(param, end_param):\n    if not math.isclose(self.param_span, math.tau):\n        return\n    end_param = param + math.tau\nelif param > end_param:\n    end_param += math.tau; start_point = vertex_(param); yield start_point"),
    ("outer_test", "param < end_param"),
    ("outer_cmp", "Lt"),
    ("outer_body", "next_end_param = param + delta; if math.isclose(next_end_param, end_param):\n    next_end_param = end_param; end_point = vertex_(next_end_param); yield from subdiv(start_point, end_point, param, next_end_param); param = next_end_param; start_point = end_point")]
@@ -1134,6 +2203,8 @@ def arcFlatteningKernel : List (String × String) :=
    ("circle", "from .arc import arc_segment_count; count = arc_segment_count(self.radius, math.tau, sagitta); yield from self.vertices(np.linspace(0.0, math.tau, count + 1))")]
 
 def distancePointLineKernel : String := "if start.isclose(end):\n    raise ZeroDivisionError('Not a line.'); v1 = point - start; v2 = (end - start).project(v1); diff = v1.magnitude_square - v2.magnitude_square; if diff <= 0.0:\n    return 0.0\nelse:\n    return math.sqrt(diff)"
+
+def distancePointSegmentKernel : String := "direction = end - start; v1 = point - start; length_square = direction.magnitude_square; if length_square == 0.0:\n    return v1.magnitude; t = direction.dot(v1) / length_square; if t <= 0.0:\n    return v1.magnitude; if t >= 1.0:\n    return point.distance(end); return point.distance(start + direction * t)"
 
 def bez4PointPyKernel : String := "_, p1, p2, p3 = self._control_points; t2 = t * t; _1_minus_t = 1.0 - t; b = 3.0 * _1_minus_t * _1_minus_t * t; c = 3.0 * _1_minus_t * t2; d = t2 * t; return p1 * b + p2 * c + p3 * d + self._offset"
 
@@ -1157,11 +2228,13 @@ theorem tie_bezier_pyx :
     bez3Pyx = pyxKernel "f.reset_recursion_check(); f.flatten(start_point, end_point, t0, t1); if f.has_recursion_error():\n    raise RecursionError('Bezier3P flattening error, check for very large coordinates'); t0 = t1; start_point = end_point" := by
   constructor <;> rfl
 
-/-- the generator based variants (generic Bezier, B-spline, ellipse) and `distance_point_line_3d` -/
+/-- the generator based variants (generic Bezier, B-spline, ellipse), `distance_point_segment_3d` (the
+    test of the B-spline and ellipse variants since the fixes 5dd05e20e / c03295f49: `segDist2`, `chordTest`)
+    and `distance_point_line_3d` (their former test: `lineDist2`, `lineTest`) -/
 theorem tie_recursive_generators :
     bezierN = bezierNKernel ∧ bspline = bsplineKernel ∧ ellipse = ellipseKernel ∧
-    distancePointLine3d = distancePointLineKernel := by
-  refine ⟨?_, ?_, ?_, ?_⟩ <;> rfl
+    distancePointLine3d = distancePointLineKernel ∧ distancePointSegment3d = distancePointSegmentKernel := by
+  refine ⟨?_, ?_, ?_, ?_, ?_⟩ <;> rfl
 
 /-- the Bezier point kernels evaluated by the driver (`bez4Point`, `bez3Point`) -/
 theorem tie_point_kernels :
@@ -1227,6 +2300,10 @@ private def demoCubic : Curve V3 :=
   bezierFlat demoCubic (recSub demoCubic 1001) pyxRelTol pyxAbsTol ⟨0, 0, 0⟩ ⟨4, 0, 0⟩ 4 6
 -- the recursion budget of the Cython twin turns into RecursionError, the stack machine has no limit
 #guard bezierFlat demoCubic (recSub demoCubic 2) pyxRelTol pyxAbsTol ⟨0, 0, 0⟩ ⟨4, 0, 0⟩ 4 6 = .error .recursion
+-- rec_eq_stack / stack_iff_rec: the inner subdivisions agree on a concrete chord; a small budget gives RecursionError
+#guard stackSub demoCubic 100 0 ⟨0, 0, 0⟩ (1/4) (demoCubic.P (1/4)) = recSub demoCubic 100 0 ⟨0, 0, 0⟩ (1/4) (demoCubic.P (1/4))
+#guard (stackSub demoCubic 100 0 ⟨0, 0, 0⟩ (1/4) (demoCubic.P (1/4))).toOption.map List.length = some 4
+#guard recSub demoCubic 2 0 ⟨0, 0, 0⟩ (1/4) (demoCubic.P (1/4)) = .error .recursion
 -- distance 0: fuel exhausted (the real loop never ends)
 #guard bezierFlat ⟨demoCubic.P, midTest 0⟩ (stackSub ⟨demoCubic.P, midTest 0⟩ 5000) mathRelTol mathAbsTol ⟨0, 0, 0⟩ ⟨4, 0, 0⟩ 4 6 = .error .fuel
 -- exact tie `d == distance` is NOT accepted (`<`): quadratic with second difference (0,-4,0), dt = 1/4
@@ -1237,15 +2314,23 @@ private def demoCubic : Curve V3 :=
 private def backtrack : Curve V3 :=
   ⟨fun t => ⟨20 * t - 19 * t * t, 0, 0⟩, lineTest vecRelTol vecAbsTol true (1/100)⟩
 
--- BSpline.flattening(0.01, segments=1) of it yields just the two end points …
-#guard bsplineFlat backtrack 900 npRtol npAtol [0, 0, 0, 1, 1, 1] 1 3 = .ok [(0, ⟨0, 0, 0⟩), (1, ⟨1, 0, 0⟩)]
+-- BSpline.flattening(0.01, segments=1) of it yielded just the two end points with the former line test …
+#guard bsplineFlat backtrack 900 mathRelTol mathAbsTol [0, 0, 0, 1, 1, 1] 1 3 = .ok [(0, ⟨0, 0, 0⟩), (1, ⟨1, 0, 0⟩)]
+-- … with the current chord test (fix 5dd05e20e) the turning region is visited: 0 → 21/4 → 1
+#guard bsplineFlat ⟨backtrack.P, chordTest (1/100)⟩ 900 mathRelTol mathAbsTol [0, 0, 0, 1, 1, 1] 1 3 =
+  .ok [(0, ⟨0, 0, 0⟩), (1/2, ⟨21/4, 0, 0⟩), (1, ⟨1, 0, 0⟩)]
+-- chordTest_iff_documented is not vacuous: accepted and rejected chords
+#guard chordTest (1/100) ⟨0, 0, 0⟩ ⟨1, 0, 0⟩ ⟨21/4, 0, 0⟩ = .split
+#guard chordTest (1/2) ⟨0, 0, 0⟩ ⟨4, 0, 0⟩ ⟨2, 1/4, 0⟩ = .accept
+#guard chordTest (1/2) ⟨0, 0, 0⟩ ⟨0, 0, 0⟩ ⟨2, 1/4, 0⟩ = .split
 
 end examples
 
-/-- … although the curve point at the middle parameter is 4.25 away from that chord: the B-spline /
+/-- … although the curve point at the middle parameter is 4.25 away from that chord: the FORMER B-spline /
     ellipse test (distance to the LINE through the chord ends) does not establish the documented
-    criterion (distance to the CHORD) on whole runs either.  (Real code: `BSpline([(0,0),(10,0),(1,0)],
-    order=3).flattening(0.01, segments=1)` returns `[(0,0,0), (1,0,0)]`.) -/
+    criterion (distance to the CHORD) on whole runs either.  (Real code before fix 5dd05e20e:
+    `BSpline([(0,0),(10,0),(1,0)], order=3).flattening(0.01, segments=1)` returned `[(0,0,0), (1,0,0)]`;
+    the current test is `chordTest`, see `chordTest_iff_documented`.) -/
 theorem bspline_line_test_counterexample :
     ∃ (C : Curve V3) (out : List (TV V3)),
       bsplineFlat C 900 (1e-5) (1e-8) [0, 0, 0, 1, 1, 1] 1 3 = .ok out ∧
